@@ -7,7 +7,13 @@
 (*                                                                         *)
 (* A basic scheme accepts a credential pair iff the htpasswd content that  *)
 (* is in force contains it.  The content may be replaced while the proxy   *)
-(* runs (refresh).  Nothing else is state: the verdict on an attempt       *)
+(* runs (refresh): a replaced file is in force at the latest one refresh   *)
+(* interval later, whether its modification time is newer OR OLDER than    *)
+(* that of the file loaded before (a restored backup, a file moved into    *)
+(* place).  When the modification time is unchanged the documentation      *)
+(* ("refresh ... only if its modification time has changed") lets the old  *)
+(* content stay: then either content may be in force.                      *)
+(* Nothing else is state: the verdict on an attempt       *)
 (* depends on that attempt and the content in force, never on earlier      *)
 (* attempts.                                                               *)
 (*                                                                         *)
@@ -25,46 +31,52 @@ CONSTANTS
     Valid,        \* function: version -> set of credential classes it contains
     SameConcat,   \* set of credential classes whose user and password run together to the same string
     FirstVersion,
+    MTimes,       \* how the modification time of a replaced file relates to the loaded one: "newer" "older" "equal"
     MaxAttempts, MaxReloads,
     Memo          \* "none" | "pair" | "concat"
 
-VARIABLES db, memo, hist, verdicts, hits, nat, nrl
-vars == <<db, memo, hist, verdicts, hits, nat, nrl>>
+VARIABLES db,     \* the content of the file
+          live,   \* the contents that may be in force (one, unless a file came with an unchanged modification time)
+          memo, hist, verdicts, hits, nat, nrl
+vars == <<db, live, memo, hist, verdicts, hits, nat, nrl>>
 
 Accepts(v, c) == c \in Valid[v]
 
 Key(c) == IF Memo = "concat" /\ c \in SameConcat THEN "the-concatenation" ELSE c
 
-Init == /\ db = FirstVersion /\ memo = {} /\ hist = <<>> /\ verdicts = <<>> /\ hits = 0 /\ nat = 0 /\ nrl = 0
+Init == /\ db = FirstVersion /\ live = {FirstVersion} /\ memo = {} /\ hist = <<>> /\ verdicts = <<>> /\ hits = 0 /\ nat = 0 /\ nrl = 0
 
-Ev(e, c, v) == [ev |-> e, cred |-> c, ver |-> v]
+Ev(e, c, v, mt, lv) == [ev |-> e, cred |-> c, ver |-> v, mt |-> mt, live |-> lv]
 
+\* the model of the implementation follows the file whenever it may (the newest permitted content)
 Attempt(c) ==
     /\ nat < MaxAttempts
     /\ LET ok == IF Memo = "none" THEN Accepts(db, c) ELSE (Key(c) \in memo \/ Accepts(db, c)) IN
        /\ verdicts' = Append(verdicts, ok)
        /\ hits' = IF ok THEN hits + 1 ELSE hits          \* only an accepted request reaches the upstream
        /\ memo' = IF Memo # "none" /\ ok THEN memo \cup {Key(c)} ELSE memo
-    /\ hist' = Append(hist, Ev("attempt", c, db))
+    /\ hist' = Append(hist, Ev("attempt", c, db, "", live))
     /\ nat' = nat + 1
-    /\ UNCHANGED <<db, nrl>>
+    /\ UNCHANGED <<db, live, nrl>>
 
-Reload(v) ==
+Reload(v, mt) ==
     /\ nrl < MaxReloads /\ nat < MaxAttempts /\ v # db
     /\ db' = v /\ memo' = {}
-    /\ hist' = Append(hist, Ev("reload", "", v))
+    /\ live' = IF mt = "equal" THEN live \cup {v} ELSE {v}
+    /\ hist' = Append(hist, Ev("reload", "", v, mt, IF mt = "equal" THEN live \cup {v} ELSE {v}))
     /\ nrl' = nrl + 1
     /\ UNCHANGED <<verdicts, hits, nat>>
 
-Next == (\E c \in Creds : Attempt(c)) \/ (\E v \in Versions : Reload(v))
+Next == (\E c \in Creds : Attempt(c)) \/ (\E v \in Versions, mt \in MTimes : Reload(v, mt))
 Spec == Init /\ [][Next]_vars
 
 -----------------------------------------------------------------------------
 \* the verdict on every attempt is the one the content in force at that moment prescribes
-Attempts == {i \in DOMAIN hist : hist[i].ev = "attempt"}
-NthAttempt(k) == CHOOSE i \in Attempts : Cardinality({j \in Attempts : j <= i}) = k
-HistoryIndependent ==
-    \A k \in DOMAIN verdicts : LET e == hist[NthAttempt(k)] IN verdicts[k] = Accepts(e.ver, e.cred)
+AttemptsOf(h) == {i \in DOMAIN h : h[i].ev = "attempt"}
+NthOf(h, k) == CHOOSE i \in AttemptsOf(h) : Cardinality({j \in AttemptsOf(h) : j <= i}) = k
+\* the verdicts permitted for the k-th attempt of history h
+AllowedFor(h, k) == LET e == h[NthOf(h, k)] IN {Accepts(v, e.cred) : v \in e.live}
+HistoryIndependent == \A k \in DOMAIN verdicts : verdicts[k] \in AllowedFor(hist, k)
 \* the upstream is contacted exactly once per accepted attempt
 UpstreamOnlyWhenAccepted == hits = Cardinality({k \in DOMAIN verdicts : verdicts[k]})
 =============================================================================
